@@ -953,7 +953,7 @@ def run(chk, ctx):
         specs.append(gen_grid_spec(rng, tier, nfree=1, full_output=False))
         specs.append(gen_grid_spec(rng, tier, nfree=2, full_output=True))
     # ---- random cases
-    nrand = 10 if quick else 120
+    nrand = 10 if quick else 300
     for w in names:
         if w.endswith('_resid'): continue
         for _ in range(nrand * (2 if w == 'opt' else 1)):
@@ -963,14 +963,14 @@ def run(chk, ctx):
     skipped = [w for w in names if w.endswith('_resid')]
     if skipped: chk.notes.append('not run (objective is a residual, not a likelihood): ' + ', '.join(skipped))
     # ---- projections, objective, perturb
-    for _ in range(60 if quick else 1500):
+    for _ in range(60 if quick else 4000):
         run_case(chk, ctx, gen_project(rng))
     run_case(chk, ctx, dict(case='project', fixed=[None, 1.0], free=[3.0], full=[3.0, 9.0], mixed=[None, 2.0]))
-    for _ in range(60 if quick else 1500):
+    for _ in range(60 if quick else 4000):
         run_case(chk, ctx, gen_objfunc(rng))
     for mode in ('pos', 'zero', 'neg', 'none_entries', 'no_bounds', 'narrow', 'mixed'):
         run_case(chk, ctx, gen_perturb(rng, tier, mode))
-    for _ in range(25 if quick else 600):
+    for _ in range(25 if quick else 1500):
         run_case(chk, ctx, gen_perturb(rng, tier))
 
 def replay(chk, ctx, data):
